@@ -243,7 +243,7 @@ def run(ctx):
         rev_ok = bool(revs) and all(g.always_before(revs, r_.id, follow_exc=False) for r_ in rets)
         sliced = any(isinstance(r_.ast.value, ast.Subscript) and norm(r_.ast.value.slice) == "::-1" for r_ in rets) or \
             any(isinstance(r_.ast.value, ast.Call) and norm(r_.ast.value.func) in ("reversed", "list") and "reversed" in norm(r_.ast.value) for r_ in rets)
-        ok = bool(apps) and (front or rev_ok or sliced)
+        ok = bool(apps) and (int(bool(front)) + int(bool(rev_ok)) + int(bool(sliced)) == 1)
         c.ob("R10", ok, gp, "path-outermost-first", "the walk collects child-to-parent and the result is reversed (or built at the front): ancestors are entered first" if ok else
              "the path collected from the target upwards is returned without being reversed: states are entered innermost-first - a child's entry actions run "
              "before its parent's and the parent's default descent then activates a second child", gp.node)
